@@ -153,6 +153,29 @@ def bounded(tier, seed, R):
     for vals in itertools.product(alphabet, repeat=6):
         _cat_case(A, np, R, np.array(vals).reshape(2, 3), ('cat23', vals), full=(tier != 'quick'))
     _cat_case(A, np, R, np.array(['b', 1, 2.5, 'a', 1], dtype=object), ('mixed',))
+    # memory layouts: transposed / Fortran-ordered / strided 2-d and 3-d inputs (unique and index_lookup must not depend on layout)
+    for vals in itertools.product(alphabet, repeat=6):
+        base = np.array(vals).reshape(2, 3)
+        for nm, arr in (('T', base.T), ('F', np.asfortranarray(base)), ('strided', np.array(vals + vals).reshape(2, 6)[:, ::2])):
+            _cat_case(A, np, R, arr, ('layout', nm, vals), full=False)
+            U, I_ = A.unique(arr)
+            ok = I_.shape == arr.shape and bool(np.all(U[I_] == arr)) and list(U) == sorted(set(arr.ravel().tolist()))
+            R.count(('unique', nm, vals) if len(set(vals)) > 1 else None, 'unique')
+            if not ok:
+                R.fail("unique|layout:%s" % nm, "unique(%s-layout array %r): U[I] != array (U=%r, I=%r)" % (nm, arr.tolist(), U.tolist(), I_.tolist()),
+                       "import numpy as np\nfrom glue.utils.array import unique\nbase = np.array(%r).reshape(2, 3)\n"
+                       "bad = False\nfor arr in (base.T, np.asfortranarray(base)):\n    U, I = unique(arr)\n    bad = bad or not np.all(U[I] == arr)\nsys.exit(1 if bad else 0)\n" % (list(vals),))
+    for n in range(1, 5):
+        for vals in itertools.product(alphabet, repeat=n):
+            for cats in (['a', 'b', 'c'], ['c', 'a'], ['b']):
+                r = A.index_lookup(np.array(vals), np.array(cats))
+                exp = [cats.index(v) if v in cats else np.nan for v in vals]
+                ok = all((np.isnan(a) and np.isnan(b)) or a == b for a, b in zip(r, exp)) and len(r) == len(exp)
+                R.count(('il', vals, tuple(cats)), 'index_lookup')
+                if not ok:
+                    R.fail("index_lookup|mismatch", "index_lookup(%r, %r) = %r, expected %r" % (vals, cats, r.tolist(), exp),
+                           "import numpy as np\nfrom glue.utils.array import index_lookup\nr = index_lookup(np.array(%r), np.array(%r))\nprint(r)\n"
+                           "exp = %r\nsys.exit(0 if all((a != a and b != b) or a == b for a, b in zip(r, exp)) else 1)\n" % (list(vals), cats, [None if e != e else e for e in exp]))
     R.samples = [{"iterate_chunks": "shape=(3, 2, 3) chunk_shape=(2, 1, 3) -> every element counted once"},
                  {"combine_slices": "slice(1, None, 2), slice(None, 4, 3), n=4 vs numpy positions"},
                  {"unbroadcast": "broadcast_to((3,1,2) -> (3,3,2))"},
